@@ -187,7 +187,14 @@ def run(db, res, tier):
             okp = rowj is rowf and j.args[3] is a.idx[1] and j.args[1] is f.args[1] is a.idx[0]
           else:
             # sparse: J[w, 0, rowadr[w, r] + i] * force[w, r], written at colind[...]
-            okp = any(s.op == "ld" and s.args[0].startswith("efc_J_rowadr") and s.args[2] is rowf for s in subterms(j.args[3])) and any(s.op == "ld" and s.args[0].startswith("efc_J_colind") and s.args[3] is j.args[3] for s in subterms(a.idx[1]))
+            pos = j.args[3]
+            in_row = any(s.op == "ld" and s.args[0].startswith("efc_J_rowadr") and s.args[2] is rowf for s in subterms(pos))
+            if not in_row and isinstance(pos, T) and pos.op == "lv":
+              # the row walked directly: `for sparseid in range(rowadr[w, r], rowadr[w, r] + rownnz[w, r])`
+              info = lc.keval.loops.get(pos.args[0], {})
+              lo = info.get("lo")
+              in_row = isinstance(lo, T) and any(s.op == "ld" and s.args[0].startswith("efc_J_rowadr") and s.args[2] is rowf for s in subterms(lo))
+            okp = in_row and any(s.op == "ld" and s.args[0].startswith("efc_J_colind") and s.args[3] is pos for s in subterms(a.idx[1]))
       res.ob(okp, f"{lc.name}|JT-force", Finding("R-SIGN.8", f"{lc.name}|qfrc_constraint|JT-pairing", f"qfrc_constraint accumulates `{show(a.value)[:120]}`: J and force are not paired on the same row / written on J's column", a.loc))
   ntr = check_change_tracking(db, res)
   res.floor("change-tracking increments", ntr, 2)
